@@ -6,7 +6,7 @@ Kept verbatim: every statement and expression of the function bodies.  Rewritten
   cdef T v = e / cdef T[n] a       ->  v = _wrap('T', e) / a = _carray('T', n)          (types recorded per function)
   <T> e, <T*> e                    ->  _apply(_CAST['T'], e)      (binds like a unary operator: implemented through `@`)
   &x[i]                            ->  _ptr(x, i)                 f = frexp(x, &e)  ->  f, e = frexp(x)
-  sizeof(T)                        ->  sizeof('T')
+  sizeof(T)                        ->  sizeof('T')                {} (empty dict literal)  ->  _newdict()
   store to a C-typed name          ->  name = _wrap('T', value)   (truncate to width / sign-interpret; float->int toward zero)
   a / b  (C operands)              ->  _cdiv(a, b)                (cdivision: integer division for ints)
   for v in range(...) (typed v)    ->  the Python loop, with v = _wrap('T', v) as first body statement
@@ -226,6 +226,12 @@ class Typer(ast.NodeTransformer):
         names = [node.target] if isinstance(node.target, ast.Name) else \
             [e for e in getattr(node.target, 'elts', []) if isinstance(e, ast.Name)]
         node.body = self._post([e.id for e in names if self.ctype(e.id)]) + node.body
+        return node
+
+    def visit_Dict(self, node):
+        self.generic_visit(node)
+        if not node.keys:       # {}  ->  _newdict()   (dict in the concrete runtime, association list in the symbolic one)
+            return ast.Call(ast.Name('_newdict', ast.Load()), [], [])
         return node
 
     def visit_BinOp(self, node):
